@@ -10,6 +10,7 @@ import (
 	"rosim/simrt"
 )
 
+//go:norace
 func wrapCancel(c context.CancelFunc) context.CancelFunc {
 	return func() {
 		c()
@@ -20,11 +21,13 @@ func wrapCancel(c context.CancelFunc) context.CancelFunc {
 	}
 }
 
+//go:norace
 func WithCancel(parent context.Context) (context.Context, context.CancelFunc) {
 	ctx, c := context.WithCancel(parent)
 	return ctx, wrapCancel(c)
 }
 
+//go:norace
 func WithCancelCause(parent context.Context) (context.Context, context.CancelCauseFunc) {
 	ctx, c := context.WithCancelCause(parent)
 	return ctx, func(cause error) {
@@ -36,30 +39,35 @@ func WithCancelCause(parent context.Context) (context.Context, context.CancelCau
 	}
 }
 
+//go:norace
 func note(d time.Duration) {
 	if k := simrt.K; k != nil && simrt.Active() {
 		k.AddExternal(d, "ctx-deadline")
 	}
 }
 
+//go:norace
 func WithTimeout(parent context.Context, d time.Duration) (context.Context, context.CancelFunc) {
 	ctx, c := context.WithTimeout(parent, d)
 	note(d)
 	return ctx, wrapCancel(c)
 }
 
+//go:norace
 func WithTimeoutCause(parent context.Context, d time.Duration, cause error) (context.Context, context.CancelFunc) {
 	ctx, c := context.WithTimeoutCause(parent, d, cause)
 	note(d)
 	return ctx, wrapCancel(c)
 }
 
+//go:norace
 func WithDeadline(parent context.Context, t time.Time) (context.Context, context.CancelFunc) {
 	ctx, c := context.WithDeadline(parent, t)
 	note(time.Until(t))
 	return ctx, wrapCancel(c)
 }
 
+//go:norace
 func WithDeadlineCause(parent context.Context, t time.Time, cause error) (context.Context, context.CancelFunc) {
 	ctx, c := context.WithDeadlineCause(parent, t, cause)
 	note(time.Until(t))
